@@ -51,7 +51,7 @@ def validate_row_run(model, ch):
             "location": location, "line": line, "validator": validator}
 
 
-def validate_row_oracle(run):
+def validate_row_oracle(run, aspects=("location",)):
     """C04: count check first; fields in order with set_cell(i), stop at first failure, error names field and
     location; checks in declaration order only after all fields passed."""
     cursor = TraceCursor(run["interp"].events)
@@ -64,6 +64,8 @@ def validate_row_oracle(run):
         error = outcome[1]
         if exc_name(error) != class_name:
             raise Mismatch("raised %s, expected %s" % (exc_name(error), class_name))
+        if "location" not in aspects:
+            return
         error_location = error.attrs.get("_location")
         if not isinstance(error_location, Obj):
             raise Mismatch("%s carries no location" % class_name)
@@ -107,13 +109,13 @@ def validate_row_oracle(run):
         return str(mismatch)
 
 
-def validate_row_table(ctx, rule):
+def validate_row_table(ctx, rule, aspects=("location",)):
     def cell(ch):
         run = validate_row_run(ctx.model, ch)
         key = "width=%d cells=%s events=%s" % (
             run["width"], "/".join(run["kinds"]),
             ",".join("%s:%s" % (event[1], event[-1]) for event in run["interp"].events))
-        return (key, validate_row_oracle(run), "conforms")
+        return (key, validate_row_oracle(run, aspects), "conforms")
 
     return decide(ctx, rule, "validate_row(2 fields, 2 checks)", VALIDATOR + ".validate_row", cell, min_cells=15)
 
@@ -227,7 +229,7 @@ def reader_rows_oracle(run, aspects):
             # (a reset before the end verdict is permitted: the verdict must be the one of a fresh CID - C08)
             while cursor.peek_is("reset"):
                 cursor.position += 1
-            _expect_close(cursor, entry)
+            _expect_close(cursor, entry, aspects)
             cursor.done()
             return "conforms"
         # every check is reset exactly once before anything else happens
@@ -235,7 +237,7 @@ def reader_rows_oracle(run, aspects):
         while cursor.peek_is("reset"):
             name = cursor.events[cursor.position][1]
             cursor.position += 1
-            if name in seen:
+            if name in seen and "reset" in aspects:
                 raise Mismatch("check %s reset twice" % name)
             seen.add(name)
         if "reset" in aspects and seen != {"c0", "c1"}:
@@ -299,16 +301,16 @@ def reader_rows_oracle(run, aspects):
                 if outcome[0] != "raise" or exc_name(outcome[1]) != "DataFormatError":
                     raise Mismatch("container fault at raw row %d did not stop reading with DataFormatError in mode %s" % (k, mode))
             if entry != "Reader.rows":
-                _expect_close(cursor, entry)
+                _expect_close(cursor, entry, aspects)
             cursor.done()
             return "conforms"
         if stopped == "raised":
             if entry != "Reader.rows":
-                _expect_close(cursor, entry)
+                _expect_close(cursor, entry, aspects)
             cursor.done()
             return "conforms"
         if entry != "Reader.rows":
-            _expect_close(cursor, entry)
+            _expect_close(cursor, entry, aspects)
         cursor.done()
         if outcome[0] != "return":
             raise Mismatch("raised %s after a complete pass" % exc_name(outcome[1]))
@@ -321,8 +323,10 @@ def reader_rows_oracle(run, aspects):
         return str(mismatch)
 
 
-def _expect_close(cursor, entry):
+def _expect_close(cursor, entry, aspects=("reset",)):
     """rows() and validate() run the end checks in declaration order and then clean every check up."""
+    while "reset" not in aspects and cursor.peek_is("reset"):
+        cursor.position += 1  # resets are the business of the tables that compare the reset protocol (C08, C20)
     result = cursor.expect("check_at_end", "c0")
     if result == CHECK_OK:
         cursor.expect("check_at_end", "c1")
@@ -406,6 +410,49 @@ def close_table(ctx, rule, class_qualname=VALIDATOR):
 
 
 # =============================================================================== Writer
+def install_writer_externals(interp):
+    """Stubs of csv.writer / io.StringIO and the abstract formatted-row text used by the delimited row writer."""
+    def csv_writer(interp_, args, kwargs):
+        stream = args[0]
+        terminator = kwargs.get("lineterminator", "\r\n")
+
+        @stub
+        def writerow(interp2, args2, kwargs2):
+            if isinstance(stream, Obj) and stream.attrs.get("is_row_buffer"):
+                # the row is formatted into an in-memory buffer and forwarded by the row writer
+                stream.attrs["content"] = RowText(args2[0], terminator)
+            else:
+                interp2.event("emit", args2[0], terminator)
+
+        return Obj("csv.writer", {"writerow": writerow}, label="csv.writer")
+
+    def string_io(interp_, args, kwargs):
+        buffer = Obj("io.StringIO", {"is_row_buffer": True, "content": ""}, label="row buffer")
+        buffer.attrs["seek"] = stub(lambda i, a, k: 0)
+        buffer.attrs["truncate"] = stub(lambda i, a, k: buffer.attrs.__setitem__("content", ""))
+        buffer.attrs["getvalue"] = stub(lambda i, a, k: buffer.attrs["content"])
+        return buffer
+
+    interp.externals["csv.writer"] = csv_writer
+    interp.externals["io.StringIO"] = string_io
+    interp.externals["text_endswith"] = lambda i, a, k: a[0].terminator.endswith(a[1]) if isinstance(a[0], RowText) and isinstance(a[1], str) \
+        else (_ for _ in ()).throw(Undecided("endswith on %r" % (a[0],)))
+    interp.externals["text_subscript"] = _row_text_subscript
+    previous_binop = interp.externals.get("binop")
+
+    def binop_with_rows(interp_, args, kwargs):
+        import ast as _ast
+
+        op, left, right = args
+        if isinstance(op, _ast.Add) and isinstance(left, RowText) and isinstance(right, str):
+            return RowText(left.row, left.terminator + right)
+        if previous_binop is not None:
+            return previous_binop(interp_, args, kwargs)
+        return NotImplemented
+
+    interp.externals["binop"] = binop_with_rows
+
+
 def _writer_world(model, ch, format_name="delimited", interp=None, world=None, cid=None, header=None):
     holder = {"errors": {}, "ids": {}}
 
@@ -420,18 +467,11 @@ def _writer_world(model, ch, format_name="delimited", interp=None, world=None, c
             holder["errors"][row_id] = error
             raise AbsRaise(error)
 
-    def csv_writer(interp_, args, kwargs):
-        @stub
-        def writerow(interp2, args2, kwargs2):
-            interp2.event("emit", args2[0], None)
-
-        return Obj("csv.writer", {"writerow": writerow}, label="csv.writer")
-
     if interp is None:
         interp = Interp(model, ch)
         world = World(model, interp, ch)
     interp.stubs[VALIDATOR + ".validate_row"] = validate_row_stub
-    interp.externals["csv.writer"] = csv_writer
+    install_writer_externals(interp)
     if header is None:
         header = Sym("h")
         interp.order.declare(("s", "h"), ">=", ("c", 0))
@@ -449,6 +489,25 @@ def _writer_world(model, ch, format_name="delimited", interp=None, world=None, c
 
     target = Obj("io.StringIO", {"name": "<target>", "write": stream_write, "close": stream_close}, label="target")
     return {"interp": interp, "world": world, "cid": cid, "header": header, "holder": holder, "target": target}
+
+
+class RowText(AText):
+    """A row formatted by the (stubbed) csv writer: the cells of ``row`` followed by ``terminator``."""
+
+    custom_eq = True
+
+    def __init__(self, row, terminator):
+        AText.__init__(self, AText.TEXT, "formatted row")
+        self.row = row
+        self.terminator = terminator
+
+
+def _row_text_subscript(interp, args, kwargs):
+    text, index = args
+    if isinstance(text, RowText) and isinstance(index, slice) and index.start is None and index.step is None \
+            and isinstance(index.stop, int) and index.stop < 0 and -index.stop <= len(text.terminator):
+        return RowText(text.row, text.terminator[: index.stop])
+    raise Undecided("subscript %r of %r" % (index, text))
 
 
 class FixedCell(AText):
@@ -603,11 +662,6 @@ def writer_oracle(run, aspects):
         if "reset" in aspects and seen != {"c0", "c1"}:
             raise Mismatch("a new Writer resets %s before its first row, expected c0 and c1" % sorted(seen))
         cursor.expect("constructed")
-        if "delimiter" in aspects and not fixed:
-            declared = run["line_delimiter"]
-            actual = run["csv_keywords"].get("lineterminator", "\r\n")
-            if declared != "any" and actual != declared:
-                raise Mismatch("declared line delimiter %r but the delimited writer terminates lines with %r" % (declared, actual))
         written = 0
         for index in range(run["n_rows"]):
             cursor.expect("call write_row", index)
@@ -623,11 +677,19 @@ def writer_oracle(run, aspects):
             if not rejected:
                 if fixed:
                     _expect_fixed_emit(cursor, run["rows"][index], run["line_delimiter"] if "delimiter" in aspects else run["line_delimiter"], index)
-                elif cursor.peek_is("emit"):
-                    emitted = cursor.events[cursor.position][1]
+                elif cursor.peek_is("emit") or (cursor.peek_is("write") and isinstance(cursor.events[cursor.position][1], RowText)):
+                    event = cursor.events[cursor.position]
                     cursor.position += 1
+                    emitted, terminator = (event[1], event[2]) if event[0] == "emit" else (event[1].row, event[1].terminator)
                     if emitted is not run["rows"][index]:
                         raise Mismatch("row %d was not emitted unchanged" % index)
+                    if "delimiter" in aspects:
+                        declared = run["line_delimiter"]
+                        if declared == "any":
+                            if terminator not in ("\n", "\r", "\r\n"):
+                                raise Mismatch("line delimiter 'any': row %d terminated by %r" % (index, terminator))
+                        elif terminator != declared:
+                            raise Mismatch("declared line delimiter %r but row %d is terminated by %r" % (declared, index, terminator))
                 else:
                     raise Mismatch("accepted row %d was not emitted" % index)
                 if run["outcomes"][index] != "written":
@@ -693,14 +755,7 @@ def history_run(model, ch, length):
 
     interp.stubs[READER + "._raw_rows"] = raw_rows_stub
 
-    def csv_writer(interp_, args, kwargs):
-        @stub
-        def writerow(interp2, args2, kwargs2):
-            return None
-
-        return Obj("csv.writer", {"writerow": writerow}, label="csv.writer")
-
-    interp.externals["csv.writer"] = csv_writer
+    install_writer_externals(interp)
     # real validate_row: fields (recording, always ok) then checks
     for field in cid.attrs["_field_formats"]:
         name = field.attrs["_field_name"]
@@ -734,7 +789,8 @@ def history_run(model, ch, length):
                     if op == "read+close":
                         interp.call(interp.getattr(reader, "close"), [], {})
             elif op.startswith("write"):
-                target = Obj("io.StringIO", {"name": "<target>"}, label="target")
+                target = Obj("io.StringIO", {"name": "<target>", "write": stub(lambda i, a, k: None), "close": stub(lambda i, a, k: None)},
+                             label="target")
                 writer = _construct(interp, WRITER, [cid, target])
                 interp.call_function(model.func(WRITER + ".write_row"), [writer, world.row(0, 2)], {}, None)
                 if op == "write+close":
